@@ -102,7 +102,9 @@ pub fn seeds() -> Vec<(&'static str, Module)> {
             .def("Expr", Ty::choice(vec![Alt::new("literal", Ty::int()), Alt::new("negated", Ty::r("Expr"))]))
             .def("A", Ty::choice(vec![Alt::new("x", Ty::Bool), Alt::new("y", Ty::r("B"))]))
             .def("B", Ty::choice(vec![Alt::new("p", Ty::Null), Alt::new("q", Ty::r("A"))]))
-            .def("Tree", Ty::seq(vec![Comp::new("kids", Ty::seq_of(Size::Any, Ty::r("Tree"))), Comp::new("next", Ty::r("Tree")).opt()])),
+            .def("Tree", Ty::seq(vec![Comp::new("kids", Ty::seq_of(Size::Any, Ty::r("Tree"))), Comp::new("next", Ty::r("Tree")).opt()]))
+            // a SET with an explicit tag next to a component whose own tag cannot be determined (the recursive CHOICE)
+            .def("Bag", Ty::Seq { set: true, comps: vec![Comp::new("e", Ty::r("Expr")), Comp::new("x", Ty::Bool).tagged(Tag::c(1))], ext_after: None }),
     ));
     out
 }
